@@ -13,6 +13,7 @@ NONTERMINAL = {
     "LE": [["log", "INFO", "l1", None], ["emit", 2, None]],
     "LLE": [["log", "DEBUG", "d", {"k": "v"}], ["log", "WARN", "w", None], ["emit", 1, None]],
     "Em": [["emit", 1, {"mk": "mv"}]],
+    "EL": [["emit", 2, None], ["log", "INFO", "after-emit", {"p": "q"}]],  # a log emitted after the step's data batch
 }
 TERMINAL = {
     "EF": [["emit", 2, None], ["finish"]],
@@ -63,6 +64,7 @@ EX_STEPS = {
     "LX": [["log", "INFO", "x-log", None], ["echo", 3, {"em": "ev"}]],
     "R": [["raise", "ValueError", "xboom"]],
     "L0": [["log", "WARN", "x-lonely", {"q": "r"}]],  # no output for this input: framework error after the log
+    "XL": [["echo", 2, None], ["log", "INFO", "after-echo", {"p": "q"}]],  # a log emitted after the step's output batch
 }
 
 
